@@ -188,6 +188,9 @@ def _run(cmd, inp=None):
 # source-level variants, tried only on what is still residual after the IR pipelines: the verdict of a dead-branch proof
 # must not depend on one particular inlining order (each variant is a sound compilation of the same TU)
 SRC_VARIANTS = [
+    # keeps zero-fill loops as typed stores (a memset has no type-based alias information and clobbers every length field LLVM cannot
+    # separate from it by offset)
+    ("clang-O2-noidiom", ["-mllvm", "-inline-threshold=20000", "-mllvm", "-disable-loop-idiom-all", "-O2"]),
     ("clang-O3-inl100k", ["-mllvm", "-inline-threshold=100000", "-O3"]),
     ("clang-O2-inl3k", ["-mllvm", "-inline-threshold=3000", "-O2"]),
 ]
